@@ -3,14 +3,23 @@ import glob
 import os
 from . import core
 
+# which drivers each variant needs (plain/asan: everything)
+VARIANT_TARGETS = {
+    "tsan": ["p11_race"],
+    "omp": ["p11_race", "p12_repro", "verif_jitter"],
+    "init0": ["p20_options"],
+    "initP": ["p20_options"],
+}
+
 
 def run():
     drivers = sorted(os.path.splitext(os.path.basename(p))[0]
                      for p in glob.glob(os.path.join(core.VERIF, "harness", "p*.cpp")))
     rc = 0
-    for variant in ("plain", "asan"):
+    plan = [("plain", drivers + ["gmgpolar"]), ("asan", drivers + ["gmgpolar"])] + list(VARIANT_TARGETS.items())
+    for variant, targets in plan:
         try:
-            core.build(variant, drivers + ["gmgpolar"])
+            core.build(variant, targets)
         except core.Inconclusive as e:
             core.log("setup: %s" % e)
             rc = 2
